@@ -316,7 +316,7 @@ def selfcheck(ob: Ob, closed, n=2):
                 ins.append(J.from_numpy(np.asarray(c)))
         outs = it.eval_closed(closed, ins)
         for oi, (r, o) in enumerate(zip(real, outs)):
-            if J.is_key_dtype(r.dtype):
+            if J.is_key_dtype(getattr(r, "dtype", np.float32)):
                 continue
             r = np.asarray(r, dtype=np.float64)
             for idx in np.ndindex(*r.shape):
